@@ -39,6 +39,14 @@ CLAIMS = {
          "Data clauses decided exhaustively from the source literals: magics are collision-free (up to equal attack sets) for every subset of every mask and indices stay in range; leaper tables equal geometry on all 64 squares; fill and lookup index agree (replayed on the literals); tables are immutable after initialisation; the InBetween consumer masks both ends. The ray walkers, pawn shift expressions and initInBetween are code and are not decided.",
          "Trusts go/ssa and go/constant; the checker's own 40-line reference ray walker and leaper offsets; R4 assumes calc*Attacks compute the ray walk.",
          "DESIGN.md §3 C12"),
+ "C14": ("rule-based inequality prover over all symbolic paths of the loop-free limit functions (callees and min/max inlined from SSA), dependence analysis (own clock only), dominance/wiring checks of timer and soft-limit consumers, token-field-colour sibling agreement",
+         "The arithmetic clauses are decided over ALL paths of hardLimit/softLimit under the property's stated domain: result >= 1, result <= remaining, remaining > margin => result <= remaining - margin, movetime => hard = soft = movetime, no int64 overflow; the limits read only the mover's own clock fields; every timer is armed with hardLimit(stm)*Millisecond for stm = board.STM under a guard true on the whole timed domain, and firing releases the search; the UCI tokens fill the fields the limits read. Wall-clock behaviour is not decided.",
+         "Mathematical-integer arithmetic under |field| <= 10^12 (assumption listed in evidence); prover is incomplete by design: unprovable => undecided, never silently passed; violations only with a concrete in-domain counterexample.",
+         "DESIGN.md §3 C14, §2 H"),
+ "C20": ("SSA shape recognition with derived roles: tiling range iterators, Feistel round invertibility by def-use independence and width arithmetic, cycle-walking guard analysis, byte-accounting path analysis between reader and manifest builder, writer/reader sibling agreement on offsets",
+         "Structural necessary (and for the Feistel/cycle-walk part also sufficient) conditions: Batches/Chunks tile their range; every Feistel round is (L,R)<-(R, L xor g(R)) with complementary half widths and an even round count; shuffleIndex cycle-walks within the next power of two and returns only values < n; every byte the line reader consumes is accounted in the manifest offsets; Chunk.Read slices exactly what NewChunker recorded. Found and fixed: F-4 (blank lines shifted all later offsets). I/O behaviour and shuffle quality are not decided.",
+         "Trusts go/ssa; the tuner's server/client glue does not type-check offline and is not analysed.",
+         "DESIGN.md §3 C20, §4 F-4"),
 }
 
 NOT_YET = "no static rule of DESIGN.md §3 for this property is built in this revision yet; not claimed"
